@@ -77,6 +77,7 @@ class Func:
         self.fmt_suffix = fmt_suffix      # explicit function_suffix in YAML
         self.fid = None
         self.consts = {}
+        self.main = False                 # the constructor the driver builds its objects with
 
 
 class Spec:
@@ -136,21 +137,65 @@ class Spec:
         return yaml.safe_dump(self.todict(), default_flow_style=False, sort_keys=False, width=200)
 
     # ------------------------------------------------------------ documented C names
+    def group_of(self, f):
+        """overload group as the documentation describes it: functions of the same C++ name in the same scope;
+        all constructors of a class form one group; function templates are never numbered"""
+        if f.template:
+            return None
+        if f.kind == "ctor":
+            return ("ctor", f.cls)
+        return (f.cls, f.ns, f.name)
+
+    def positions(self):
+        """documented rule: the automatic suffix of an overload is `_<i>`, i = its position among ALL overloads of that
+        name in declaration order (a function with n default arguments stands for n+1 overloads, fewest arguments first);
+        an explicit function_suffix replaces the number of that member only; a name declared once gets no suffix."""
+        groups = {}
+        for f in self.funcs:         # YAML order within one scope = order in self.funcs
+            g = self.group_of(f)
+            if g is None:
+                continue
+            lst = groups.setdefault(g, [])
+            for nd in range(len(f.defaults) + 1):
+                lst.append((f, nd))
+        pos = {}
+        for g, lst in groups.items():
+            for i, (f, nd) in enumerate(lst):
+                pos[(id(f), nd)] = "_%d" % i if len(lst) > 1 else ""
+        return pos
+
     def c_names(self, f):
-        """[(C name, number of defaulted arguments supplied, template type)] for every wrapper of f"""
+        """[(documented C name, number of defaulted arguments supplied, template type)] for every wrapper of f"""
         tmpl = self.name_template or "{C_prefix}{C_name_scope}{underscore_name}{function_suffix}{template_suffix}"
         scope = (f.cls + "_") if f.cls else ((f.ns + "_") if f.ns else "")
         uname = {"ctor": "ctor", "dtor": "dtor"}.get(f.kind, f.name)
-        out = []
-        base_suffix = f.fmt_suffix if f.fmt_suffix is not None else (f.suffix or "")
-        variants = [(base_suffix, len(f.defaults), None)]
-        if f.defaults:
-            variants = [("_%d" % i, i, None) for i in range(len(f.defaults) + 1)]
+        pos = self.positions()
         if f.template:
-            variants = [(base_suffix, 0, t) for t in f.template]
+            variants = [(f.fmt_suffix or "", 0, t) for t in f.template]
+        else:
+            variants = []
+            for nd in range(len(f.defaults) + 1):
+                sfx = f.fmt_suffix if f.fmt_suffix is not None else pos.get((id(f), nd), "")
+                variants.append((sfx, nd, None))
+        out = []
         for sfx, nd, tt in variants:
             out.append((tmpl.format(C_prefix=self.c_prefix(), C_name_scope=scope, underscore_name=uname, function_suffix=sfx,
                                     template_suffix=("_" + tt) if tt else ""), nd, tt))
+        return out
+
+    def overload_shapes(self):
+        """e.g. 'free:EAA' - E explicit suffix, A automatic number, D member with default arguments"""
+        groups = {}
+        for f in self.funcs:
+            g = self.group_of(f)
+            if g is not None:
+                groups.setdefault(g, []).append(f)
+        out = []
+        for g, lst in groups.items():
+            if len(lst) < 2 and not any(f.defaults for f in lst):
+                continue
+            kind = "ctor" if g[0] == "ctor" else ("method" if g[0] else ("ns" if g[1] else "free"))
+            out.append(kind + ":" + "".join("E" if f.fmt_suffix is not None else ("D" if f.defaults else "A") for f in lst))
         return out
 
 
@@ -229,6 +274,44 @@ def gen_ret(r, spec, allow_struct=True):
     return (k,)
 
 
+SIGS = [("_int", lambda: [Param("native", "int", "val", "in", "a0")]),
+        ("_dbl", lambda: [Param("native", "double", "val", "in", "a0")]),
+        ("_lng", lambda: [Param("native", "long", "val", "in", "a0")]),
+        ("_istr", lambda: [Param("native", "int", "val", "in", "a0"), Param("string", "string", "ref", "in", "a1", const=True)])]
+
+
+def explicit_pattern(r, k):
+    """which members of an overload set of k carry an explicit function_suffix"""
+    pat = r.choice(["none", "first", "middle", "last", "all", "random", "first", "random"])
+    if pat == "none":
+        return [False] * k
+    if pat == "all":
+        return [True] * k
+    if pat == "first":
+        return [i == 0 for i in range(k)]
+    if pat == "last":
+        return [i == k - 1 for i in range(k)]
+    if pat == "middle":
+        return [0 < i < k - 1 or (k == 2 and i == 1) for i in range(k)]
+    return [r.random() < 0.5 for _ in range(k)]
+
+
+def gen_overloads(r, name, cls=None, with_default=False):
+    """2-4 overloads of one name (free function or method), explicit suffixes on any subset; optionally one
+    member with a default argument (it stands for two overloads)"""
+    k = r.randrange(2, 5)
+    sigs = r.sample(SIGS, k) if r.random() < 0.5 else SIGS[:k]
+    expl = explicit_pattern(r, k)
+    out = []
+    dflt_at = r.randrange(k) if with_default else -1
+    for i, ((sfx, mk), e) in enumerate(zip(sigs, expl)):
+        f = Func(name, mk(), ("native", "int") if i == 0 else ("void",), cls=cls, fmt_suffix=sfx if e else None)
+        if i == dflt_at and not e:
+            f.defaults = [(Param("native", "int", "val", "in", "d0"), "7")]
+        out.append(f)
+    return out
+
+
 def gen_spec(r, name, rich=True, nfree=None):
     spec = Spec(name)
     if r.random() < 0.4:
@@ -242,14 +325,22 @@ def gen_spec(r, name, rich=True, nfree=None):
     funcs = []
     for ci, c in enumerate(allcls):
         spec.classes = allcls[:ci + 1]   # a class may mention itself and classes declared before it
-        two = r.random() < 0.5
-        explicit = r.random() < 0.5
-        if two:
-            funcs.append(Func("ctor", [], ("void",), cls=c, kind="ctor", suffix="_0", fmt_suffix="_default" if explicit else None))
-            funcs.append(Func("ctor", [Param("native", "int", "val", "in", "a0")], ("void",), cls=c, kind="ctor", suffix="_1",
-                              fmt_suffix="_int" if explicit else None))
-        else:
-            funcs.append(Func("ctor", [Param("native", "int", "val", "in", "a0")], ("void",), cls=c, kind="ctor"))
+        # constructors: the int constructor (used by the driver to make objects) plus 0-3 more, explicit
+        # suffixes on any subset
+        ctors = [Func("ctor", [Param("native", "int", "val", "in", "a0")], ("void",), cls=c, kind="ctor")]
+        ctors[0].main = True
+        if r.random() < 0.5:
+            ctors.insert(r.randrange(2), Func("ctor", [], ("void",), cls=c, kind="ctor"))
+        if r.random() < 0.5:
+            ctors.insert(r.randrange(len(ctors) + 1), Func("ctor", [Param("native", "double", "val", "in", "a0")], ("void",), cls=c, kind="ctor"))
+        if r.random() < 0.3:
+            ctors.append(Func("ctor", [Param("native", "long", "val", "in", "a0"), Param("native", "int", "val", "in", "a1")],
+                              ("void",), cls=c, kind="ctor"))
+        if len(ctors) > 1:
+            for x, e in zip(ctors, explicit_pattern(r, len(ctors))):
+                if e:
+                    x.fmt_suffix = "_default" if not x.params else "_" + "".join(p.t[0] for p in x.params)
+        funcs += ctors
         funcs.append(Func("dtor", [], ("void",), cls=c, kind="dtor"))
         funcs.append(Func("ident", [], ("native", "int"), cls=c, const=True))
         for j in range(r.randrange(1, 5)):
@@ -261,13 +352,11 @@ def gen_spec(r, name, rich=True, nfree=None):
     for j in range(nfree):
         ps = [gen_param(r, spec, i) for i in range(r.randrange(0, 5))]
         funcs.append(Func("fn%d" % j, ps, gen_ret(r, spec)))
-    if r.random() < 0.6:
-        # overload set: automatic suffixes _0, _1, ...
-        k = r.randrange(2, 4)
-        sigs = [[Param("native", "int", "val", "in", "a0")], [Param("native", "double", "val", "in", "a0")],
-                [Param("native", "int", "val", "in", "a0"), Param("string", "string", "ref", "in", "a1", const=True)]][:k]
-        for i, ps in enumerate(sigs):
-            funcs.append(Func("ov", ps, ("native", "int") if i == 0 else ("void",), suffix="_%d" % i))
+    if r.random() < 0.7:
+        funcs += gen_overloads(r, "ov", with_default=r.random() < 0.3)
+    for c in allcls:
+        if r.random() < 0.5:
+            funcs += gen_overloads(r, "put", cls=c)
     if r.random() < 0.6:
         nd = r.randrange(1, 3)
         dts = [("int", 7), ("long", 9)][:nd]
@@ -323,8 +412,9 @@ def fixed_spec(name="ogf"):
     S = lambda n, mode="ref", intent="in": Param("string", "string", mode, intent, n, const=(intent == "in"))
     K = lambda n, mode, const=False: Param("class", "K0", mode, "in" if const else "inout", n, const=const)
     funcs = [
-        Func("ctor", [], ("void",), cls="K0", kind="ctor", suffix="_0"),
-        Func("ctor", [N("int", "a0")], ("void",), cls="K0", kind="ctor", suffix="_1"),
+        Func("ctor", [], ("void",), cls="K0", kind="ctor", fmt_suffix="_default"),
+        Func("ctor", [N("int", "a0")], ("void",), cls="K0", kind="ctor"),
+        Func("ctor", [N("double", "a0")], ("void",), cls="K0", kind="ctor"),
         Func("dtor", [], ("void",), cls="K0", kind="dtor"),
         Func("ident", [], ("native", "int"), cls="K0", const=True),
         Func("m0", [N("int", "a0"), N("int", "a1")], ("native", "int"), cls="K0", const=True),
@@ -348,10 +438,15 @@ def fixed_spec(name="ogf"):
         Func("sw7", [], ("cstr",)),
         Func("sw8", [], ("nativeptr", "double")),
         Func("df", [N("int", "a0")], ("native", "int"), defaults=[(N("int", "d0"), "7"), (N("long", "d1"), "9")]),
-        Func("ov", [N("int", "a0")], ("native", "int"), suffix="_0"),
-        Func("ov", [N("double", "a0")], ("void",), suffix="_1"),
+        Func("ov", [N("int", "a0")], ("native", "int"), fmt_suffix="_int"),
+        Func("ov", [N("double", "a0")], ("void",)),
+        Func("ov", [N("long", "a0")], ("void",)),
+        Func("put", [N("int", "a0")], ("void",), cls="K0", fmt_suffix="_int"),
+        Func("put", [N("double", "a0")], ("void",), cls="K0"),
+        Func("put", [N("long", "a0")], ("void",), cls="K0"),
         Func("tf", [N("T", "a0")], ("void",), template=["int", "double"]),
     ]
+    funcs[1].main = True
     for i, f in enumerate(funcs):
         f.fid = i
         for p in f.params:
